@@ -195,6 +195,36 @@ theorem lgmres_first_cycle_monotone_model (hM : 1 ≤ prm.MM) (hov : st.w.ov.siz
   rw [hjj] at hroots
   exact cycle_monotone n A hA hn hm P Pl hP prm.pside sqrt f (lToG st) hst (lGPrm prm) rfl epsT heps hroots
 
+/-- **(lucky) breakdown in the first cycle returns the exact solution**: buffer empty, `1 ≤ M + K`, threshold not negative,
+exact roots; if the inner loop of the cycle ends with a breakdown in its last pass (`H̃(j,j−1) = 0`) and the preconditioned
+operator `T = A Pl` / `Pl A` is injective, the `x` the cycle returns has measured residual `Rf x = 0` and true residual
+`f − A x = 0` (the zero VECTORS).  (In a cycle that feeds augmentation vectors a breakdown need not be lucky: `ExLB` below.) -/
+theorem lgmres_first_cycle_breakdown_exact (hM : 1 ≤ prm.MM) (hov : st.w.ov.size = 0) (epsT : K) (heps : ¬ epsT < 0)
+    (hroots : RootsExact prm.pside sqrt A P (lToG st) (LGMRES.inner prm stdIp sqrt A P epsT st).j)
+    (hinj : Function.Injective (Tl prm.pside (matOf A n n) Pl))
+    (hb : arnoldiNorm prm.pside sqrt A P (lToG st) ((LGMRES.inner prm stdIp sqrt A P epsT st).j - 1) = 0) :
+    GMRES.Rf prm.pside P f A (LGMRES.cycle prm stdIp sqrt A P epsT st).x = vclear n ∧
+    residual f A (LGMRES.cycle prm stdIp sqrt A P epsT st).x = vclear n := by
+  have hx : (LGMRES.cycle prm stdIp sqrt A P epsT st).x
+      = (GMRES.cycle (lGPrm prm) stdIp sqrt A P epsT (lToG st)).x :=
+    congrArg GMRES.St.x (lcycle_sim prm hM sqrt A P epsT st hov)
+  have hjj : (LGMRES.inner prm stdIp sqrt A P epsT st).j
+      = (GMRES.inner (lGPrm prm) stdIp sqrt A P epsT (lToG st)).j :=
+    congrArg GMRES.In.j (linner_sim prm hM sqrt A P epsT st hov).g
+  rw [hx]
+  rw [hjj] at hroots hb
+  have hge := (inner_eq_innerPass (lGPrm prm) sqrt A P epsT (lToG st)).2
+  have hnb := inner_no_early_breakdown (lGPrm prm) sqrt A P epsT heps (lToG st)
+  obtain ⟨m, hm'⟩ : ∃ m, (GMRES.inner (lGPrm prm) stdIp sqrt A P epsT (lToG st)).j = m + 1 :=
+    ⟨_, (Nat.sub_add_cancel hge).symm⟩
+  rw [hm'] at hroots hnb hb
+  rw [Nat.add_sub_cancel] at hb
+  have hRf : GMRES.Rf prm.pside P f A (GMRES.cycle (lGPrm prm) stdIp sqrt A P epsT (lToG st)).x = vclear n := by
+    rw [cycle_x, hm']
+    exact breakdown_exact n A hA hn hm P Pl hP prm.pside sqrt f (lToG st) hst m hroots (fun i hi => hnb i (by omega))
+      hinj hb
+  exact ⟨hRf, true_residual_zero n A hA hn hm P Pl hP prm.pside hinj f _ hRf⟩
+
 end refine
 
 /-! ### non-vacuity over `ℚ` with the executable `rsqrt`: LGMRES(2, 1) on the system of `Proofs/KrylovGMRESExample.lean`
@@ -252,6 +282,21 @@ example : stdIp (residual fg Ag stl.x) (residual fg Ag stl.x) = 625 ∧
     (match LGMRES.solve prml stdIp Amgcl.rsqrt 0 Ag Pg (LGMRES.Work.fresh 3) fg xg with
       | .ok (it, res, x, _) => decide (it = 2 ∧ res = 16/25 ∧ x = #[123/25, -12/5, 0])
       | _ => false) = true := by decide +kernel
+
+/-- `lgmres_first_cycle_breakdown_exact` on the breakdown system of `Proofs/KrylovGMRESRestartExample.lean`
+(`A = [[3,0,1],[4,5,2],[0,0,3]]`, breakdown in pass `1`): the first cycle of LGMRES(2, 1) returns the exact solution -/
+example : let prmlb : LGMRES.Params ℚ := { maxiter := 5, tol := 1/100, abstol := 0, nsSearch := false, M := 2, K' := 1,
+                                            alwaysReset := true, pside := .right }
+    let stlb := LGMRES.init prmlb stdIp Amgcl.rsqrt Amgcl.Krylov.ExB.Ab Pg (LGMRES.Work.fresh 3) fg xg
+    residual fg Amgcl.Krylov.ExB.Ab (LGMRES.cycle prmlb stdIp Amgcl.rsqrt Amgcl.Krylov.ExB.Ab Pg (1/4) stlb).x = vclear 3 := by
+  intro prmlb stlb
+  have hG : lToG stlb = Amgcl.Krylov.ExB.stb :=
+    linit_sim prmlb Amgcl.rsqrt Amgcl.Krylov.ExB.Ab Pg (LGMRES.Work.fresh 3) fg xg
+  have hj : (LGMRES.inner prmlb stdIp Amgcl.rsqrt Amgcl.Krylov.ExB.Ab Pg (1/4) stlb).j = 2 := by decide +kernel
+  exact (lgmres_first_cycle_breakdown_exact 3 Amgcl.Krylov.ExB.Ab Amgcl.Krylov.ExB.hAb rfl rfl Pg LinearMap.id hPg
+    Amgcl.rsqrt fg prmlb stlb (by rw [hG]; exact Amgcl.Krylov.ExB.hstb) (by decide) (by decide +kernel) (1/4)
+    (by decide +kernel) (by rw [hj, hG]; exact Amgcl.Krylov.ExB.hrootsb) Amgcl.Krylov.ExB.hinjb
+    (by rw [hj, hG]; exact Amgcl.Krylov.ExB.hbb)).2
 
 end nonvacuous
 
